@@ -100,7 +100,15 @@ pub fn gen_c03(g: &mut Gen, tier: &str) {
         let (a, mut b) = (dt_pool(g), dt_pool(g));
         if k % 4 == 0 { b = (a.0, a.1, off_pool(g)); if (b.0 * NPD + b.1 + b.2 * NPS) < DAY_MIN as i128 * NPD || (b.0 * NPD + b.1 + b.2 * NPS) >= (DAY_MAX as i128 + 1) * NPD { b.2 = 0; } }
         if k % 4 == 1 { b = (a.0 + 1, a.1, b.2); if b.0 > DAY_MAX as i128 - 2 { b.0 = a.0 - 1; } }
+        if k % 16 == 2 { // far apart: more than i32::MAX days between the two day numbers
+            let lo_d = DAY_MIN as i128 + g.rng.range(0, 1_000_000); let hi_d = DAY_MAX as i128 - g.rng.range(0, 1_000_000);
+            let (x, y) = if g.rng.chance(1, 2) { (lo_d, hi_d) } else { (hi_d, lo_d) };
+            g.push(true, Input::new("dt_cmp", vec![x, a.1, 0, y, b.1, 0]));
+            for u in [6i128, 0, 2] { g.push(true, Input::new("dt_since", vec![u, x, a.1, 0, y, b.1, 0])); }
+        }
         g.push(true, Input::new("dt_cmp", vec![a.0, a.1, a.2, b.0, b.1, b.2]));
+        // the sign of every *_since difference agrees with the order
+        g.push(true, Input::new("dt_since", vec![(k % 7) as i128, a.0, a.1, a.2, b.0, b.1, b.2]));
         if k % 5 == 0 {
             g.push(a.0 != b.0, Input::new("date_cmp", vec![a.0, b.0]));
             g.push(a.1 != b.1, Input::new("time_cmp", vec![a.1, a.2, b.1, b.2]));
@@ -113,8 +121,18 @@ pub fn gen_c04(g: &mut Gen, tier: &str) {
     for k in 0..n {
         let v = dt_pool(g);
         let u = (g.rng.next() % 7) as i128;
-        let c = count_pool(g);
+        let mut c = count_pool(g);
         let op = if k % 2 == 0 { "dt_add" } else { "dt_sub" };
+        // one time in six the count is aligned with the time of day, so that the result is exactly 00:00:00 (or one unit
+        // before / after it) of another day: whole-day borrows and carries
+        if k % 6 == 5 {
+            let unit_ns: i128 = match u { 0 => 3_600 * NPS, 1 => 60 * NPS, 2 => NPS, 3 => 1_000_000, 4 => 1_000, 5 => 1, _ => NPD };
+            let tod = v.1; // UTC time of day in ns
+            let to_boundary = if k % 2 == 0 { (NPD - tod) / unit_ns } else { tod / unit_ns };
+            let whole_days = g.rng.range(0, 3) * (NPD / unit_ns);
+            let cand = to_boundary + whole_days + *g.rng.pick(&[0i128, 0, 1, -1]);
+            if cand >= 0 && cand <= U32M { c = cand; }
+        }
         g.push(c != 0, Input::new(op, vec![u, v.0, v.1, v.2, c]));
     }
     for k in 0..n / 2 {
@@ -381,6 +399,7 @@ pub fn gen_c10(g: &mut Gen, tier: &str) {
         let o2 = off_pool(g);
         g.push(o2 != v.2, Input::new(if k % 2 == 0 { "dt_set_offset" } else { "dt_as_offset" }, vec![v.0, v.1, v.2, o2]));
         g.push(v.2 != 0, Input::new("dt_get", vec![v.0, v.1, v.2]));
+        if k % 2 == 0 { let (tn, to) = (nanos_pool(g), off_pool(g)); g.push(to != 0, Input::new("time_get", vec![tn, to])); }
         if k % 3 == 0 {
             g.push(true, Input::new(if k % 2 == 0 { "time_set_offset" } else { "time_as_offset" }, vec![v.1, v.2, o2]));
             { let __i = Input::new("offset_from_seconds", vec![g.rng.range(-90_000, 90_000)]); g.push(true, __i); }
